@@ -91,6 +91,23 @@ async def scenario(loop, plan, r):
     if proto._tx_seq != plan["i"] % 8 or proto._rx_seq != plan["j"] % 8 or len(app.frames) != plan["j"]:
         r.bad("C11:harness:prior-traffic", f"tx {proto._tx_seq} rx {proto._rx_seq} frames {len(app.frames)}")
         return
+    if plan.get("prefail"):
+        # the host has given up on the link by itself (a DATA frame unanswered until the retry budget was used up; the NCP
+        # never sent an ERROR frame) - the state a reset is asked for in practice
+        state["autoack"] = False
+        dead = asyncio.ensure_future(gw.send_data(b"\x70\x01\x02\x03"))
+        await asyncio.wait([dead], timeout=60)
+        if not dead.done() or dead.exception() is None:
+            r.bad("C11:harness:prefail", f"unanswered send ended {dead}")
+            return
+        state["autoack"] = True
+        r.cls("host-had-declared-the-link-failed")
+    if plan.get("xnoise"):
+        # a stray XOFF (and maybe XON) from the NCP some time before the request
+        for b in plan["xnoise"]:
+            proto.data_received(bytes([b]))
+            await asyncio.sleep(0.002)
+        r.cls("flow-control-noise")
     inflight = None
     if plan.get("inflight"):
         state["autoack"] = False
@@ -399,6 +416,10 @@ def plans(draw):
         plan["second"] = draw(st.sampled_from([0.0003, 0.5, 4.9995]))
     if draw(st.integers(0, 9)) == 0:
         plan["inflight"] = True
+    elif draw(st.integers(0, 5)) == 0:
+        plan["prefail"] = True
+    if draw(st.integers(0, 5)) == 0:
+        plan["xnoise"] = draw(st.sampled_from([[0x13], [0x13, 0x11], [0x11], [0x13, 0x13]]))
     return plan
 
 
@@ -440,6 +461,10 @@ def enum_plans(quick):
             if kind != "eof":
                 for op in ("reset", "startup"):
                     out.append({"i": 2, "j": 2, "op": op, "events": [[-1, "eof", 0], [tt, kind, 0]]})
+    for op in ("reset", "startup"):
+        for extra in ({"prefail": True}, {"xnoise": [0x13]}, {"xnoise": [0x13, 0x11]}, {"prefail": True, "xnoise": [0x13]}):
+            for ev in ([[0.01, "rstack", SOFTWARE]], [[0.5, "rstack", 0x02], [1.0, "rstack", SOFTWARE]], [[0.5, "error", 0x51]]):
+                out.append(dict({"i": 3, "j": 2, "op": op, "events": ev}, **extra))
     for i in range(8):
         for q in (1, 2, 3):
             for how in ("same-chunk", "between", "before-request"):
